@@ -921,6 +921,11 @@ func (g *generator) enterNext() {
 
 func (g *generator) next(v Value) (Value, resultType, *Exception) {
 	g.enterNext()
+	return g.resumeNext(v)
+}
+
+// resumeNext continues a generator that has been entered with enterNext(), sending it v.
+func (g *generator) resumeNext(v Value) (Value, resultType, *Exception) {
 	if v != nil {
 		g.vm.push(v)
 	}
@@ -932,6 +937,11 @@ func (g *generator) next(v Value) (Value, resultType, *Exception) {
 
 func (g *generator) nextThrow(v interface{}) (Value, resultType, *Exception) {
 	g.enterNext()
+	return g.resumeThrow(v)
+}
+
+// resumeThrow continues a generator that has been entered with enterNext(), throwing v at the point of suspension.
+func (g *generator) resumeThrow(v interface{}) (Value, resultType, *Exception) {
 	ex := g.vm.handleThrow(v)
 	if ex != nil {
 		g.vm.popTryFrame()
@@ -961,6 +971,14 @@ func (g *generatorObject) init(vmCall func(*vm, int), nArgs int) {
 
 	g.state = genStateSuspendedStart
 	vm.popCtx()
+}
+
+// enter enters the suspended generator and marks it as running. If it cannot be entered (enterNext() fails
+// with a stack overflow) nothing of it has run and its saved context is intact: its state is left unchanged,
+// so that it can still be resumed later.
+func (g *generatorObject) enter() {
+	g.gen.enterNext()
+	g.state = genStateExecuting
 }
 
 func (g *generatorObject) validate() {
@@ -1053,8 +1071,8 @@ func (g *generatorObject) next(v Value) Value {
 	if g.state != genStateSuspendedYieldRes {
 		v = nil
 	}
-	g.state = genStateExecuting
-	return g.step(g.gen.next(v))
+	g.enter()
+	return g.step(g.gen.resumeNext(v))
 }
 
 func (g *generatorObject) throw(v Value) Value {
@@ -1081,11 +1099,11 @@ func (g *generatorObject) throw(v Value) Value {
 		if g.state != genStateSuspendedYieldRes {
 			res = nil
 		}
-		g.state = genStateExecuting
-		return g.step(g.gen.next(res))
+		g.enter()
+		return g.step(g.gen.resumeNext(res))
 	}
-	g.state = genStateExecuting
-	return g.step(g.gen.nextThrow(v))
+	g.enter()
+	return g.step(g.gen.resumeThrow(v))
 }
 
 func (g *generatorObject) _return(v Value) Value {
@@ -1114,9 +1132,8 @@ func (g *generatorObject) _return(v Value) Value {
 		}
 	}
 
+	g.enter()
 	g.gen.returning = v
-	g.state = genStateExecuting
-	g.gen.enterNext()
 	canContinue, ex := g.gen.enterNextFinallyFrame()
 	if ex != nil {
 		// an iterator's return() threw while the suspended loops were closed and nothing inside the
